@@ -728,14 +728,21 @@ func c18Raw(c *Ctx) {
 // c18Dispatch: Sign and SignBlob of the plugin signer.
 func c18Dispatch(c *Ctx, ENV *ssa.Function) {
 	w := c.W
-	// the raw path: the plugin signer's method that delegates to the generic signer
-	var RAW *ssa.Function
+	// the raw path, by role (c18RawPath R1–R3): a call of the generic signer on an object that holds the plugin-backed
+	// primitive signer, or of a module function that returns only the checked results of such a call. Its helpers are
+	// looked up for the spelling of the composed facts (tail call / tested error of the helper's call).
+	rp := newC18RawPath(w)
+	isDispatcher := func(fn *ssa.Function) bool {
+		return fn.Signature.Recv() != nil && namedOf(fn.Signature.Recv().Type()) == "ngo/signer.PluginSigner" && (fn.Name() == "Sign" || fn.Name() == "SignBlob")
+	}
+	var RAWS []*ssa.Function
 	for _, fn := range w.FuncsOfPkg("signer") {
-		if fn == ENV || fn.Signature.Recv() == nil || namedOf(fn.Signature.Recv().Type()) != "ngo/signer.PluginSigner" || fn.Name() == "Sign" || fn.Name() == "SignBlob" {
+		if fn == ENV || isDispatcher(fn) || fn.Signature.Results().Len() != 3 {
 			continue
 		}
-		if len(findCalls(fn, "(*ngo/signer.GenericSigner).Sign")) > 0 {
-			RAW = fn
+		if rp.isHelper(fn) {
+			RAWS = append(RAWS, fn)
+			c.SeenFn(fn.String())
 		}
 	}
 	sg, _ := w.depConstString("github.com/notaryproject/notation-plugin-framework-go/plugin", "CapabilitySignatureGenerator")
@@ -753,13 +760,20 @@ func c18Dispatch(c *Ctx, ENV *ssa.Function) {
 		detail := ""
 		for _, ex := range s.Exits {
 			viaEnv := ex.Tail == fnName(ENV)
-			viaRaw := RAW != nil && ex.Tail == fnName(RAW)
+			viaRaw := false
+			for _, RAW := range RAWS {
+				if ex.Tail == fnName(RAW) {
+					viaRaw = true
+				}
+			}
 			for l := range ex.Checked {
 				if strings.HasPrefix(l, "EQ(call:"+fnName(ENV)+"(") && strings.HasSuffix(l, "#err,nil)") {
 					viaEnv = true
 				}
-				if RAW != nil && strings.HasPrefix(l, "EQ(call:"+fnName(RAW)+"(") && strings.HasSuffix(l, "#err,nil)") {
-					viaRaw = true
+				for _, RAW := range RAWS {
+					if strings.HasPrefix(l, "EQ(call:"+fnName(RAW)+"(") && strings.HasSuffix(l, "#err,nil)") {
+						viaRaw = true
+					}
 				}
 			}
 			_, capS := hasLabel(ex.Checked, "T(call:(*pfw/plugin.GetMetadataResponse).HasCapability(", fmt.Sprintf("const:%q))", sg))
@@ -767,9 +781,14 @@ func c18Dispatch(c *Ctx, ENV *ssa.Function) {
 			if !((viaRaw && capS) || (viaEnv && capE)) {
 				// not one exit per path: the exit may serve both paths through merged variables (`switch` that only assigns,
 				// one error test and one return after it). Decided on the values returned: see c18ReturnsCheckedCall.
-				paths := map[*ssa.Function]string{ENV: fmt.Sprintf("const:%q))", eg)}
-				if RAW != nil {
-					paths[RAW] = fmt.Sprintf("const:%q))", sg)
+				paths := func(call *ssa.Call) (string, bool, string) {
+					if staticCallee(call) == ENV {
+						return fmt.Sprintf("const:%q))", eg), true, ""
+					}
+					if isRaw, why := rp.isRawCall(call); !isRaw {
+						return "", false, why
+					}
+					return fmt.Sprintf("const:%q))", sg), true, ""
 				}
 				c.Evals++
 				if okV, why := c18ReturnsCheckedCall(w, fn, ex, paths); !okV {
@@ -903,15 +922,66 @@ func c18Primitive(c *Ctx) {
 			primT = namedOf(fn.Signature.Recv().Type())
 		}
 	}
+	// the described key spec: result 0 of a method of the plugin signer that returns (key spec, error) — the describe-key
+	// lookup held to raw/describe-key/* —, its error tested before the use. Decided where the value is PRODUCED: a
+	// function that merely hands its own parameter on (constructor below the raw-path helper, helper below a helper) is
+	// looked through to every one of its call sites, because on every execution the parameter is the argument of one of
+	// them. The obligation is stated per producing function, as before.
+	originRule := "the key spec handed to the raw path is the checked result of the describe-key lookup (its error tested before use)"
+	var origin func(g *ssa.Function, at ssa.Instruction, v ssa.Value, depth int)
+	origin = func(g *ssa.Function, at ssa.Instruction, v ssa.Value, depth int) {
+		if p, isP := v.(*ssa.Parameter); isP && p.Parent() == g && depth < 4 {
+			idx := -1
+			for i, q := range g.Params {
+				if q == p {
+					idx = i
+				}
+			}
+			sites := 0
+			for _, h := range w.FuncsOfPkg("signer") {
+				for _, ci := range allCalls(h) {
+					if staticCallee(ci) != g || idx < 0 || idx >= len(ci.Common().Args) {
+						continue
+					}
+					sites++
+					if call, isC := ci.(*ssa.Call); isC {
+						origin(h, call, call.Call.Args[idx], depth+1)
+					} else {
+						c.Bad("raw/primitive-signer/key-spec-origin/"+fnName(h), originRule, w.InstrPos(ci), "deferred / concurrent call")
+					}
+				}
+			}
+			if sites == 0 {
+				c.Bad("raw/primitive-signer/key-spec-origin/"+fnName(g), originRule, w.InstrPos(at), "the key spec is a parameter of a function without a static call site")
+			}
+			return
+		}
+		d := desc(v)
+		okA, okG := false, false
+		gl := w.Info(g).GuardsOf(at)
+		if ex, isEx := loadOrigin(v).(*ssa.Extract); isEx && ex.Index == 0 {
+			if kc, isC := ex.Tuple.(*ssa.Call); isC {
+				if kf := staticCallee(kc); kf != nil && kf.Signature.Recv() != nil && namedOf(kf.Signature.Recv().Type()) == "ngo/signer.PluginSigner" {
+					okA = true
+					okG = labelHas(gl, "EQ("+desc(kc)+"#err,nil)")
+				}
+			}
+		}
+		c.Check(okA && okG, "raw/primitive-signer/key-spec-origin/"+fnName(g), originRule, w.InstrPos(at), fmt.Sprintf("argument %s, error tested=%v", d, okG))
+	}
 	for _, fn := range w.FuncsOfPkg("signer") {
 		flds := map[string]string{}
 		var al ssa.Instruction
+		var ksStore *ssa.Store
 		for _, b := range fn.Blocks {
 			for _, in := range b.Instrs {
 				if st, ok := in.(*ssa.Store); ok {
 					if fa, ok := st.Addr.(*ssa.FieldAddr); ok && namedOf(fa.X.Type()) == primT {
 						flds[fieldName(fa.X.Type(), fa.Field)] = desc(st.Val)
 						al = st
+						if fieldName(fa.X.Type(), fa.Field) == "keySpec" {
+							ksStore = st
+						}
 					}
 				}
 			}
@@ -921,42 +991,32 @@ func c18Primitive(c *Ctx) {
 		}
 		n++
 		c.SeenFn(fn.String())
-		recv := "param:" + fn.Params[0].Name()
-		ksParam := ""
+		// the plugin signer the object is built for: the parameter of that type (receiver of a method, or any parameter of
+		// a plain constructor function)
+		recv := ""
 		for _, p := range fn.Params {
-			if namedOf(p.Type()) == "core/internal/algorithm.KeySpec" {
-				ksParam = "param:" + p.Name()
+			if recv == "" && namedOf(p.Type()) == "ngo/signer.PluginSigner" {
+				recv = "param:" + p.Name()
 			}
 		}
-		ok := flds["keyID"] == recv+".keyID" && flds["plugin"] == recv+".plugin" && ksParam != "" && flds["keySpec"] == ksParam
-		c.Check(ok, "raw/primitive-signer/"+fnName(fn), "the primitive signer is built from the signer's own key id and plugin and the key spec that was described for that key id", w.InstrPos(al), fmt.Sprintf("fields: %v", flds))
-		// the described key spec: every caller passes getKeySpec's checked result
-		for _, g := range w.FuncsOfPkg("signer") {
-			for _, ci := range allCalls(g) {
-				call, isC := ci.(*ssa.Call)
-				if !isC || staticCallee(call) != fn {
-					continue
-				}
-				for i, p := range fn.Params {
-					if "param:"+p.Name() != ksParam {
-						continue
-					}
-					d := desc(call.Call.Args[i])
-					// result 0 of a method of the plugin signer (the describe-key lookup), its error tested before use
-					okA, okG := false, false
-					gl := w.Info(g).GuardsOf(call)
-					if ex, isEx := loadOrigin(call.Call.Args[i]).(*ssa.Extract); isEx && ex.Index == 0 {
-						if kc, isC := ex.Tuple.(*ssa.Call); isC {
-							if kf := staticCallee(kc); kf != nil && kf.Signature.Recv() != nil && namedOf(kf.Signature.Recv().Type()) == "ngo/signer.PluginSigner" {
-								okA = true
-								okG = labelHas(gl, "EQ("+desc(kc)+"#err,nil)")
-							}
-						}
-					}
-					c.Check(okA && okG, "raw/primitive-signer/key-spec-origin/"+fnName(g), "the key spec handed to the raw path is the checked result of the describe-key lookup (its error tested before use)", w.InstrPos(call), fmt.Sprintf("argument %s, error tested=%v", d, okG))
-				}
-				// the descriptor is passed through unchanged
+		if recv == "" {
+			c.Bad("raw/primitive-signer/"+fnName(fn), "the primitive signer is built from the signer's own key id and plugin and the key spec that was described for that key id", w.InstrPos(al), "built without a plugin signer")
+			continue
+		}
+		// the key spec stored is a parameter of the constructing function (followed to where it is produced) or is produced
+		// in the constructing function itself (construction written out in Sign / SignBlob): the same origin obligation
+		okKS := false
+		if ksStore != nil {
+			if _, isP := ksStore.Val.(*ssa.Parameter); isP {
+				okKS = namedOf(ksStore.Val.Type()) == "core/internal/algorithm.KeySpec"
+			} else if ex, isEx := loadOrigin(ksStore.Val).(*ssa.Extract); isEx && ex.Index == 0 {
+				okKS = namedOf(ksStore.Val.Type()) == "core/internal/algorithm.KeySpec"
 			}
+		}
+		ok := flds["keyID"] == recv+".keyID" && flds["plugin"] == recv+".plugin" && okKS
+		c.Check(ok, "raw/primitive-signer/"+fnName(fn), "the primitive signer is built from the signer's own key id and plugin and the key spec that was described for that key id", w.InstrPos(al), fmt.Sprintf("fields: %v", flds))
+		if okKS {
+			origin(fn, ksStore, ksStore.Val, 0)
 		}
 	}
 	if n == 0 {
